@@ -56,6 +56,14 @@ def fragments(ctx):
         near = C.chain_lines("4DFR", "A", 20, 12)
         out.append(("two-ligand-copies", near + [C.TER] + mtx_a + C.rename_chain(mtx_b, "B", "A")))
     out.append(("frag-1HPX-A0+40", C.chain_lines("1HPX", "A", 0, 40) + [C.TER]))
+    # alternate locations: later conformations are completed with copies of atoms of the first one
+    alt = a
+    for r_ in [r for r in ids if any(C.resid(ln) == r and ln[17:20] in ("ASP", "GLU", "LYS", "ARG", "HIS", "TYR") for ln in a)][:2]:
+        alt = C.add_altloc(alt, r_)
+    out.append(("frag-1HPX-A20+7+altlocs", alt + [C.TER]))
+    # a disulfide bridge (CYS E42 - CYS E58 of 3SGB): a bridged cysteine does not titrate, listed or not
+    ss = C.chain_lines("3SGB", "E", 12, 4) + [C.TER] + C.rename_chain(C.chain_lines("3SGB", "E", 32, 4), "E", "F") + [C.TER]
+    out.append(("frag-3SGB-disulfide", ss))
     if ctx.thorough():
         out.append(("frag-2chains", C.chain_lines("1HPX", "A", 24, 4) + [C.TER] + C.chain_lines("1HPX", "B", 24, 4) + [C.TER]))
     return out
